@@ -5,7 +5,8 @@ reverse sweep with a seed, driver call, recording/evaluating a second graph, pla
 graph.  The expected result of every call is computed from that call's arguments alone: forward = direct execution
 of the program; reverse / driver = the same call on a FRESH graph recorded for the purpose with the call's own forward
 argument (a graph without history).  Invariants: a reverse sweep leaves every node's forward value byte-identical
-and does not touch the caller's seed; Function.cgraph stays None between calls.
+and does not touch the caller's seed; Function.cgraph stays None between calls; a value returned by an earlier call
+(held by the caller without copying) is not changed by any later call.
 """
 import numpy as np
 from hypothesis import strategies as st
@@ -96,6 +97,12 @@ def prop_history(case, stats):
     rec_in = _mk_input(case, case['rec'])
     cg, fins, regs = guard(_record, case, rec_in)
     last_fwd = None     # inputs of the last forward evaluation (UTPM) or None
+    held = []           # results handed to the caller (NOT copied) with a byte snapshot taken when they were returned
+
+    def hold(what, obj):
+        arr = obj.data if isinstance(obj, UTPM) else obj
+        if isinstance(arr, np.ndarray):
+            held.append((what, arr, arr.tobytes()))
     for n, stp in enumerate(case['history']):
         kind = stp['step']
         what = 'step %d (%s)' % (n, kind)
@@ -110,6 +117,7 @@ def prop_history(case, stats):
             if isinstance(ref, UTPM) != isinstance(got, UTPM):
                 raise Violation('%s: result kind %s, direct execution %s' % (what, type(got).__name__, type(ref).__name__))
             _close(got.data if isinstance(got, UTPM) else got, ref.data if isinstance(ref, UTPM) else ref, what, stats)
+            hold(what + ' result', got)
             last_fwd = stp['spec'] if stp['spec']['kind'] == 'utpm' else None
         elif kind == 'reverse':
             if last_fwd is None:
@@ -125,6 +133,7 @@ def prop_history(case, stats):
                 if a != b:
                     raise Violation('%s: the reverse sweep changed the forward value of node %d (%s)'
                                     % (what, i, cg.functionList[i].func.__name__))
+            hold(what + ' input adjoint', fins[0].xbar)
             got = fins[0].xbar.data.copy()
             # the same call on a graph without history
             cg2, fins2, regs2 = guard(_record, case, _mk_input(case, last_fwd))
@@ -136,6 +145,7 @@ def prop_history(case, stats):
             cg2, _, _ = guard(_record, case, [x.copy()])
             ref = guard(_call_driver, cg2, stp['name'], x, stp['v'], stp['w'])
             _close(got, ref, what + ' ' + stp['name'], stats)
+            hold(what + ' ' + stp['name'] + ' result', got)
             last_fwd = None     # drivers evaluate the graph themselves
         elif kind == 'other_graph':
             cgo = CGraph()
@@ -157,6 +167,10 @@ def prop_history(case, stats):
             raise KeyError(kind)
         if Function.cgraph is not None:
             raise Violation('%s left Function.cgraph set (recording still on)' % what)
+        # results returned by earlier calls must not be changed by later calls
+        for hw, arr, snap in held:
+            if arr.tobytes() != snap:
+                raise Violation('%s changed the value that had been returned earlier by %s' % (what, hw))
 
 
 @st.composite
@@ -192,7 +206,14 @@ def history_cases(draw, tier, outkind, first=None, families=None):
             D, P = last
             hist.append({'step': 'reverse', 'ybar': draw(gen.float_array((D, P) + tuple(oshape), dense, sparse=False))})
         elif k == 'driver':
-            hist.append({'step': 'driver', 'name': draw(st.sampled_from(drivers)), 'k': draw(st.integers(0, K - 1)),
+            prev = [h for h in hist if h['step'] == 'driver']
+            if prev and draw(st.booleans()):
+                # come back to an earlier (driver, point) pair with new vectors
+                old = draw(st.sampled_from(prev))
+                name, kk = old['name'], old['k']
+            else:
+                name, kk = draw(st.sampled_from(drivers)), draw(st.integers(0, K - 1))
+            hist.append({'step': 'driver', 'name': name, 'k': kk,
                          'v': draw(gen.float_array((N,), dense, sparse=False)),
                          'w': draw(gen.float_array((M,), dense, sparse=False))})
             last = None
